@@ -133,7 +133,9 @@ def _combos(tier):
 
 
 def _stems(tier):
-    return ["A100", "B500", "C100"] if tier == "quick" else list(FILES)
+    # quick: A100 and D050 share the padded FFT length but not the sampling rate (state keyed by the
+    # FFT length alone), B500 needs the longer FFT; thorough adds C100 (same rate as A100, other length)
+    return ["A100", "B500", "D050"] if tier == "quick" else list(FILES)
 
 
 def warm(tier="quick"):
@@ -340,9 +342,9 @@ def _conformance(tier):
     import multiprocessing
     import hvsrpy.cli as C
     d = _DATA
-    cases = [dict(files=["A100", "B500", "C100"], nproc=2, pre="pre_plain", proc="trad"),
+    cases = [dict(files=["A100", "B500", "D050"], nproc=2, pre="pre_plain", proc="trad"),
              dict(files=["B500", "A100"], nproc=1, pre="pre_plain", proc="trad"),
-             dict(files=["C100", "B500", "A100"], nproc=3, pre="pre_plain", proc="trad")]
+             dict(files=["D050", "B500", "A100"], nproc=3, pre="pre_plain", proc="trad")]
     if tier != "quick":
         cases.append(dict(files=["B500", "A100", "D050", "C100"], nproc=2, pre="pre_filt", proc="azi"))
     del _CONFORMANCE[:]
@@ -471,7 +473,7 @@ def describe(tier):
              "CPython's own chunker, at most min(ntasks, nproc) workers) is executed with real forked workers; "
              "states = schedules, transitions = chunk executions; a root is non-trivial/distinct by "
              "(batch, nproc, cpu, settings)",
-        bounds=dict(files="A100,B500,C100 (quick) + D050 (thorough)", batch_length="<=3 quick, <=4 thorough",
+        bounds=dict(files="A100,B500,D050 (quick) + C100 (thorough)", batch_length="<=3 quick, <=4 thorough",
                     nproc="1..3,+omitted(cpu=2) quick; 1..5,+omitted(cpu=2,16) thorough"),
         exhaustive=True,
         assumptions=["interleavings between workers are reduced by the checked independence argument (disjoint "
